@@ -162,6 +162,25 @@ theorem prune_order (ps : List Addr) (exact : Bool) (md : Nat) (t : Tree) :
 /-- the addresses listed by `addrs` are exactly the positions at which the tree has a node -/
 theorem addrs_valid (t : Tree) (a : Addr) : a ∈ addrs [] t ↔ (subAt t a).isSome := mem_addrs_root t a
 
+/-- the targets `locate` returns are the nodes the textual paths designate under `find_path`'s
+    reading: the unique node whose `path_name` ends with the path (after `replace(sep, tree.sep)` and
+    `rstrip(tree.sep)`) -/
+theorem locate_designates (treeSep : Str) (t : Tree) (sepArg : Str) (paths : List Str) (ps : List Addr)
+    (h : locate treeSep t sepArg paths = .ok ps) :
+    ps.length = paths.length ∧ ∀ qp ∈ paths.zip ps, Designates treeSep t sepArg qp.1 qp.2 :=
+  ⟨locate_length treeSep t sepArg paths ps h, locate_sound treeSep t sepArg paths ps h⟩
+
+/-- `find_path` finds `v` iff `v` is the one node whose `path_name` ends with the query -/
+theorem find_path_spec (sep : Str) (anc : List Str) (t : Tree) (q : Str) (v : Visit) :
+    findPath sep anc t q = .ok (some v) ↔
+      v ∈ walk [] anc t ∧ (rstrip sep q) <:+ pathName sep v.names ∧
+        ∀ w ∈ walk [] anc t, (rstrip sep q) <:+ pathName sep w.names → w = v :=
+  findPath_eq_some_iff sep anc t q v
+
+/-- non-vacuity: `"b"` designates the node at `[1]` of `ex`; `"z"` (two matches) designates none -/
+example : ∃ v, findPath ['/'] [] ex ['b'] = .ok (some v) ∧ v.addr = [1] ∧ v.names = [['r'], ['b']] := ⟨_, rfl, rfl, rfl⟩
+example : findPath ['/'] [] ex ['z'] = .error .searchError := rfl
+
 /-- **subtree_eq.** `get_subtree` returns the addressed node with its descendants, cut at the
     relative depth `max_depth`, as a new root. -/
 theorem subtree_eq (treeSep : Str) (anc : List Str) (t : Tree) (q : Str) (md : Nat) (v : Visit)
